@@ -15,7 +15,7 @@ P = {
  "C08": (MC, "VMGRAPH(stateright)", "explicit-state search over real VM configurations restricted to Stack/Pred/Alu/Memory/ParentMemory ops; every transition compared with the reference single-step function on the complete configuration (frame condition) and on error-ness", "4 C08", "boundary word alphabet; Mod(MIN,-1) masked; error variants not compared", "explicit-state BFS with per-transition reference comparison"),
  "C09": (MC, "XPLORE+refvm", "hole-program exploration (all control-flow programs up to the length bound over boundary constants) through exec and eval, compared with the reference on final pc, stack, gas and error index", "4 C09", "RepeatCounter in loops entered with count<=0 masked; gas limit cuts loops", "stateless exhaustive program enumeration against a reference VM"),
  "C10": (MC, "XPLORE+refvm+rayon-shim", "hole-program exploration of Compute programs against the sequential-loop reference, from several parent states, plus directed large-breadth cases; schedules of the children enumerated under the shim", "4 C10", "stray ComputeEnd and children ending behind the Compute masked/convention; breadth beyond thousands excluded", "stateless exhaustive program + schedule enumeration against a sequential reference"),
- "C11": (MC, "XPLORE(Env)", "full product of read op x frame x address x key x operands x memory size x environment answer (the mock state's answer is an explored choice), recorder checks the exact request, memory compared word for word with the documented layout", "4 C11", "finite menus of keys/answers", "exhaustive enumeration of operands and environment answers against a layout reference"),
+ "C11": (EX, "enumeration", "full product of read op x frame x address x key x operands x memory size x environment answer (the mock state's answer is an explored choice), recorder checks the exact request, memory compared word for word with the documented layout", "4 C11", "finite menus of keys/answers", "exhaustive enumeration of operands and environment answers against a layout reference"),
  "C12": (EX, "enumeration", "all solution sets/indices/operands from small domains for access ops; every byte length, tamper position and recovery id for crypto ops, against direct slicing / the hash and sign crates", "4 C12", "keys, digests, messages from fixed pools: structure exhausted, value spaces not", "bounded-exhaustive input enumeration against library oracles"),
  "C13": (EX, "enumeration", "all 256 bytes, all byte pairs, all ops x boundary immediates, all op sequences <=2(3), every truncation; compared with an independent reading of asm.yml and a pinned opcode table", "4 C13", "pinned table golden/opcodes.tsv taken at the pinned commit", "exhaustive byte/opcode enumeration against an independent spec reader"),
  "C14": (MC, "XPLORE", "differential execution of mapped bytecode vs op list over the C09/C10 program sets and the byte-string corpora", "4 C14", "both paths are real code; equality of final Vm, gas and error rendering", "stateless exhaustive program enumeration, differential oracle between two real paths"),
@@ -27,7 +27,7 @@ P = {
  "C20": (MC, "lockmc(loom+shuttle)", "the repository's lock source, token-rewritten onto loom/shuttle primitives at build time, explored exhaustively: 2..4 threads x 1..2 applies x 1..2 locks under loom (DPOR), 2..16 threads under shuttle with an own preemption-bounded DFS scheduler; lost/torn update, return value and deadlock oracles in every execution", "4 C20", "loom's and shuttle's Mutex model std::sync::Mutex; poisoning is documented behaviour", "exhaustive interleaving exploration (loom DPOR; shuttle + bounded DFS) of the real lock source"),
 }
 
-CLAIMED = ["C05", "C07", "C08", "C09", "C10", "C15"]
+CLAIMED = ["C01", "C02", "C03", "C05", "C07", "C08", "C09", "C10", "C11", "C12", "C13", "C14", "C15", "C20"]
 
 def main():
     head = subprocess.run(["git","-C","/repo","log","--format=%H %s"],capture_output=True,text=True).stdout.strip().splitlines()
